@@ -90,6 +90,12 @@ fn cfgs() -> Vec<PairCfg> {
     c.client.name = "cid0".into();
     c.cid_len = 0;
     v.push(c);
+    // a server flight of several datagrams: the handshake spends several round trips in states where
+    // one side holds Handshake keys but no 1-RTT keys yet
+    let mut c = cfg_by_name("default");
+    c.client.name = "cert10k".into();
+    c.cert_len = 10_000;
+    v.push(c);
     v
 }
 
@@ -353,6 +359,26 @@ fn run_case(base: Instant, c: &Case, dump: bool) -> Out {
                                 }
                             } else if timed_out {
                                 v.push((format!("idle-without-timeout:{who}"), format!("{who} timed out although no idle timeout is negotiated")));
+                            }
+                        }
+                    }
+                }
+            }
+            // an application's close (its own code and reason, frame type 0x1d) may only travel in
+            // 1-RTT / 0-RTT packets; in Initial and Handshake packets the generic transport-level close
+            // stands in for it (RFC 9000 10.2.3)
+            {
+                let mut reported = false;
+                for r in &p.w.recs {
+                    if let Rec::Emit { node, data, dst, t, idx, .. } = r {
+                        if *node > 1 || reported {
+                            continue;
+                        }
+                        let peer_cl = crate::ledger::cid_len_of(&p.w, *dst);
+                        for (pk, frames) in crate::ledger::decode(data, peer_cl) {
+                            if matches!(pk.ty, crate::wire::PType::Initial | crate::wire::PType::Handshake) && frames.iter().any(|f| matches!(f, WFrame::Close { app: true, .. })) {
+                                reported = true;
+                                v.push(("application-close-in-handshake-packet".into(), format!("node{node} at {t:?}: datagram #{idx} carries the application's CONNECTION_CLOSE (0x1d) in a {:?} packet", pk.ty)));
                             }
                         }
                     }
